@@ -448,3 +448,133 @@ def rule_T_IDENT(ctx, T):
         for fld, kw in sorted(follow.items()):
             ctx.ob("T-IDENT", "%s %s %r" % (name, fld, kw[:1]), len(kw) > 0 and pred_accepts(p, kw[0]) is False,
                    "the identifier predicate accepts %r, so an atom name would run into the following %s" % (kw[:1], fld))
+
+
+# ----------------------------------------------------------------------------
+# unique tokenisation where a name touches a keyword
+def _ident_fn(ctx, fn_path):
+    p = char_pred(ctx.facts, fn_path)
+
+    def ident(s):
+        for c in s:
+            r = pred_accepts(p, c)
+            if r is None:
+                raise Unrecognised("identifier predicate undecidable on %r" % c)
+            if not r:
+                return False
+        return True
+    return ident
+
+
+def emitted_copula_fields(ctx):
+    """copula fields the enum formatter can write (the derived copulas are parse-only sugar)"""
+    out = set()
+    for path, it in ctx.facts.hir.items():
+        if "impl_enum::formatter" not in path or it.get("body") is None:
+            continue
+        for n in hir.walk(it["body"]):
+            if n.get("k") == "Field":
+                fp = hir.field_path(n)
+                if fp and len(fp) >= 2 and fp[-2] == "statement" and fp[-1].startswith("copula_"):
+                    out.add(fp[-1])
+    ctx.floor("copula fields written by the enum formatter", len(out), 7)
+    return out
+
+
+def juxtapose_instances(copulas, prefixes, ident):
+    """name/copula juxtapositions that contain a different copula across the boundary.
+       ('tail', u, c, c2, x): a name ending in u, followed by copula c (and then a name starting with x), contains copula c2 = u + c[..] (+ x)
+       ('head', '', c, c3, x): copula c followed by a name starting with x is the longer copula c3 = c + x
+       Names are restricted as in the properties: identifier chars, no copula inside, not beginning with an atom prefix, not beginning/ending with '-'."""
+    C = sorted(set(copulas))
+    P = [p for p in prefixes if p]
+    inst = []
+
+    def head_ok(x):
+        return bool(x) and ident(x) and not x.startswith("-") and not any(x.startswith(p) for p in P) and not any(c in x for c in C)
+    for c2 in C:
+        for k in range(1, len(c2)):
+            u, v = c2[:k], c2[k:]
+            if not ident(u) or u.endswith("-") or any(c in u for c in C):
+                continue
+            for c in C:
+                if c.startswith(v):
+                    inst.append(("tail", u, c, c2, ""))
+                elif v.startswith(c) and head_ok(v[len(c):]):
+                    inst.append(("tail", u, c, c2, v[len(c):]))
+    for c in C:
+        for c3 in C:
+            if c3 != c and c3.startswith(c) and head_ok(c3[len(c):]):
+                inst.append(("head", "", c, c3, c3[len(c):]))
+    return inst
+
+
+def rule_T_JUXTAPOSE(ctx, T, models=("enum", "lex"), only_written=None):
+    """only_written: restrict to instances whose WRITTEN copula is in the given role set (C10: derived copulas)"""
+    ctx.rule("T-JUXTAPOSE", "unique tokenisation where a name touches a copula: both name scanners stop at the first position where ANY copula "
+             "starts, so no copula may be obtainable as (identifier-character tail of a well-formed name) + (beginning of a copula), nor as "
+             "(copula) + (identifier-character head of a name); computed from the copula tables and the identifier predicates. "
+             "A self-test on a synthetic table (copulas 是 / 具有 / 有) must produce the 具+有 instance on every run")
+    syn = juxtapose_instances(["是", "具有", "有"], ["$"], lambda s: all(ch.isalnum() or ch in "_-" for ch in s))
+    if ("tail", "具", "有", "具有", "") not in syn:
+        from canary import CanarySilent
+        raise CanarySilent("T-JUXTAPOSE does not find the synthetic 具+有 collision: %s" % syn)
+    total = 0
+    for name in T.names:
+        for model in models:
+            try:
+                if model == "enum":
+                    e = T.e_roles(name)
+                    cops, pre, ident = e["copula"], list(e["prefix"].values()), _ident_fn(ctx, e["fn"]["is_valid_atom_name"])
+                    written = None if only_written is None else {kw for fld, kw in cops.items() if fld in only_written}
+                    cops = list(cops.values())
+                else:
+                    l = T.l_roles(name)
+                    cops, pre, ident = list(l["copula"]), list(l["prefix"]), _ident_fn(ctx, l["fn"]["is_identifier"])
+                    written = None
+                    if only_written is not None:
+                        e = T.e_roles(name)
+                        written = {kw for fld, kw in e["copula"].items() if fld in only_written}
+                inst = juxtapose_instances(cops, pre, ident)
+            except Unrecognised as u:
+                ctx.unrecognised("T-JUXTAPOSE", "%s %s" % (model, name), u.what)
+                continue
+            if written is not None:
+                inst = [i for i in inst if i[2] in written]
+            total += len(cops)
+            for kind, u, c, c2, x in inst:
+                if kind == "tail":
+                    key = "%s %s name ending %r + copula %r%s reads as copula %r" % (model, name, u, c, (" + name starting %r" % x) if x else "", c2)
+                else:
+                    key = "%s %s copula %r + name starting %r reads as copula %r" % (model, name, c, x, c2)
+                ctx.ob("T-JUXTAPOSE", key, False, "the name scanner stops where %r starts: the statement is tokenised with a shorter name and the other copula "
+                       "(or fails with an empty name)" % c2)
+            if not inst:
+                ctx.ob("T-JUXTAPOSE", "%s %s: no copula arises across a name/copula boundary" % (model, name), True)
+    ctx.floor("copulas examined for juxtaposition", total, 26 if only_written is None else 1)
+
+
+def rule_T_BUDGET_IDENT(ctx, T, models=("enum", "lex")):
+    ctx.rule("T-BUDGET-IDENT", "the budget alternative is tried first at the start of the input in both parsers, so the budget brackets must not be "
+             "spellable inside a well-formed atom name: opening + closing bracket consisting of identifier characters only (and not starting "
+             "with an atom prefix) make a top-level word such as <open><close>x read as an empty budget followed by x")
+    for name in T.names:
+        for model in models:
+            try:
+                if model == "enum":
+                    e = T.e_roles(name)
+                    br, pre, ident = e["single"]["task.budget_brackets"], list(e["prefix"].values()), _ident_fn(ctx, e["fn"]["is_valid_atom_name"])
+                    cops = list(e["copula"].values())
+                else:
+                    l = T.l_roles(name)
+                    br, pre, ident = l["single"]["task.budget_brackets"], list(l["prefix"]), _ident_fn(ctx, l["fn"]["is_identifier"])
+                    cops = list(l["copula"])
+            except Unrecognised as u:
+                ctx.unrecognised("T-BUDGET-IDENT", "%s %s" % (model, name), u.what)
+                continue
+            w = br[0] + br[1]
+            bad = bool(br[0]) and bool(br[1]) and ident(w) and not w.startswith("-") and not any(w.startswith(p) for p in pre if p) \
+                and not any(c in w for c in cops)
+            ctx.ob("T-BUDGET-IDENT", "%s %s budget brackets %r…%r are not spellable in an atom name" % (model, name, br[0], br[1]), not bad,
+                   "a top-level word beginning %r (or %r<digits>%r) is consumed as a budget: the sentence becomes a task with a shorter term, "
+                   "or the parse fails with a missing term" % (w, br[0], br[1]))
